@@ -33,6 +33,48 @@ func (f c04SealedFast) Invoke(a []interface{}) ([]reflect.Value, error) {
 	return c04rv(f(a[0].(c04Sealed))), nil
 }
 
+// c04VarFast: a variadic handler type with a fast invoker of its own.
+type c04VarFast func(c04SVal, ...int) string
+
+func (f c04VarFast) Invoke(a []interface{}) ([]reflect.Value, error) {
+	return c04rv(f(a[0].(c04SVal), a[1].([]int)...)), nil
+}
+
+// c04Variadic: a variadic handler's trailing parameter is a parameter like any other (type []T): when
+// nothing is registered for it the invocation fails naming the type and the body does not run - plain
+// and fast alike. (With a registered []T the plain path is outside what reflect.Call accepts: not asserted.)
+func c04Variadic(first bool, fast bool) string {
+	inj := inject.New()
+	if first {
+		inj.Map(c04SVal{"v"})
+	}
+	n := 0
+	var f interface{} = func(a c04SVal, rest ...int) string { n++; return "ran" }
+	if fast {
+		f = c04VarFast(func(a c04SVal, rest ...int) string { n++; return "ran" })
+	}
+	var err error
+	var pan interface{}
+	func() {
+		defer func() { pan = recover() }()
+		_, err = inj.Invoke(f)
+	}()
+	if pan != nil {
+		return fmt.Sprintf("Invoke panicked: %v", pan)
+	}
+	missing := "[]int"
+	if !first {
+		missing = "c04SVal"
+	}
+	if err == nil || n != 0 {
+		return fmt.Sprintf("variadic handler func(SVal, ...int) with %s unresolvable: Invoke reported %v and the body ran %d times", missing, err, n)
+	}
+	if !strings.Contains(err.Error(), missing) {
+		return fmt.Sprintf("error %q does not name the unresolvable type %s", err, missing)
+	}
+	return ""
+}
+
 type c04SealedTarget struct {
 	F c04Sealed `inject:""`
 	G c04Mixed  `inject:""`
@@ -230,6 +272,24 @@ func c04SealedCheck(c c04SealedCase) string {
 
 func c04SealedPhase(r *core.Run) {
 	r.Bounds["sealed_universe"] = c04SNames
+	{
+		l := core.NewLocal()
+		for _, first := range []bool{true, false} {
+			for _, fast := range []bool{false, true} {
+				l.Evals++
+				l.Transitions++
+				l.Traces++
+				l.NonTrivial++
+				if bad := c04Variadic(first, fast); bad != "" {
+					l.Class("mismatch")
+					l.Violate(fmt.Sprintf("variadic-handler/fast=%v", fast), bad, c04Case{What: "variadic", Fast: fast, Target: map[bool]int{true: 1, false: 0}[first]})
+				} else {
+					l.Class("variadic-handler:unresolved")
+				}
+			}
+		}
+		r.Merge(l)
+	}
 	type job struct{ masks []int }
 	var jobs []job
 	for a := 0; a < 64; a++ {
